@@ -291,6 +291,33 @@ def check_select_layout(ctx, F, tag):
         qbase = any(m(Call(lambda n_: n_.endswith("Access<'a>>::get"), SelfField("samples"), Bin("Mul", Const(2), ANY)), x) for x in base)
     ok = dom and okpos and all(o for _, o, _ in rel) and len(rel) >= 2 and qok and tagbit.get("long") == qpar.get("long") == "even" and tagbit.get("short") == qpar.get("short") == "odd" and \
         qadd.get("long") and qadd.get("short") and qbase
+    # the pointer written for a superblock is twice the current length of the array its entries go to (long -> long.len(),
+    # short -> short.len()), and the query indexes that array with the pointer plus the rank *within* the superblock
+    ptr_ok = {}
+    len_calls = [(order[bi], bi, ref_field(nb, t["args"][0])) for bi, t in nb.calls() if callee_name(t).endswith("Vector>::len") and ref_field(nb, t["args"][0]) in ("long", "short")]
+    for k in ("long", "short"):
+        for _, bi, v in pushes[k]:
+            ps = [pb for pb in par if nb.dominates(pb, bi)]
+            if len(ps) == 1:
+                near = sorted((o, f) for o, lb, f in len_calls if lb == ps[0] or nb.dominates(lb, ps[0]))
+                # the length that feeds this pointer: the len() call closest above the pointer push
+                ptr_ok[k] = bool(near) and near[-1][1] == k and any(x[0] == "call" and x[1].endswith("Vector>::len") for x in subterms(par[ps[0]][1]))
+    idx_ok = {}
+    from guards import linear
+    for qn in ("select", "select_unchecked"):
+        if not F.has_body(SS + qn):
+            continue
+        qq = F.body(SS + qn)
+        rp = [i_ for i_ in range(qq.nargs) if qq.local_name(i_ + 1) == "rank"]
+        rank_p = ("param", rp[0]) if rp else ("param", -1)
+        for bi, t in qq.calls():
+            if callee_name(t).endswith("Access<'a>>::get") and (self_path(qq.term_of_operand(t["args"][0])) or [None])[-1] == "long":
+                lin = linear(qq.term_of_operand(t["args"][1]))
+                bare = any(isinstance(kk, tuple) and kk[:2] == rank_p for kk in lin)
+                within = any(isinstance(kk, tuple) and kk and kk[0] == "bin" and kk[1] in ("BitAnd", "Rem") and any(x[:2] == rank_p for x in subterms(kk)) for kk in lin)
+                idx_ok[qn] = (not bare) and within and lin.get((), 0) == 0
+    ok = ok and all(ptr_ok.get(k) for k in ("long", "short")) and bool(idx_ok) and all(idx_ok.values())
     ctx.ob("C01.R4.select-store-read-agreement", "SelectSupport" + tag, where, ok, "sibling-agreement",
            "builder: sample = %s (position component: %s), offsets %s; tag parity written long=%s short=%s; query: result starts at samples[2*sb]: %s, adds long/short reads: %s/%s under tag parity long=%s short=%s" % (
-               tstr(S)[:60], okpos, [(k, o) for k, o, _ in rel], tagbit.get("long"), tagbit.get("short"), qok and qbase, qadd.get("long"), qadd.get("short"), qpar.get("long"), qpar.get("short")))
+               tstr(S)[:60], okpos, [(k, o) for k, o, _ in rel], tagbit.get("long"), tagbit.get("short"), qok and qbase, qadd.get("long"), qadd.get("short"), qpar.get("long"), qpar.get("short")) +
+           "; pointer = 2 * len of the array it points into: %s; long entries indexed by pointer + rank within the superblock: %s" % (ptr_ok, idx_ok))
